@@ -143,6 +143,41 @@ def twin_shape(rng):
             return tb
 
 
+def overflow_shapes():
+    """WIDE nested shapes, always present: the FLATTENED reads()/writes() of a nested tuple exceed 32 ids
+    (33..52), over up to 50 distinct resource types, so that a declaration that loses ids beyond some
+    fixed capacity differs from the concatenation and from the cells really borrowed"""
+    def wk(r, ndef):      # write-style member; only the first `ndef` resources need Default
+        return leaf("Write" if r <= ndef else ("WriteExpect" if r % 2 else "OptWrite"), r)
+    rk = ["Read", "ReadExpect", "OptRead"]
+    out = []
+    # three 12-tuples of writes in a tuple: 36 writes over 36 distinct resources
+    out.append(compose("tuple", [compose("tuple", [wk(12 * j + i + 1, 18) for i in range(12)]) for j in range(3)]))
+    # a 26-tuple of pairs: 52 reads over 26 resources (duplicates)
+    out.append(compose("tuple", [compose("tuple", [leaf(rk[i % 3], i + 1), leaf("OptRead", (i * 7) % 26 + 1)]) for i in range(26)]))
+    # a tuple of derived structs that contain tuples: 4 x 10 = 40 reads over 20 resources
+    out.append(compose("tuple", [compose(["named", "tstruct"][j % 2],
+                                         [compose("tuple", [leaf("Read" if i % 2 else "OptRead", (10 * j + i) % 20 + 1) for i in range(10)])])
+                                 for j in range(4)]))
+    # exactly 33 reads (16 + 16 + 1) and exactly 32 (16 + 16)
+    out.append(compose("tuple", [compose("tuple", [leaf("Read", i + 1) for i in range(16)]),
+                                 compose("tuple", [leaf("ReadExpect", i + 1) for i in range(16)]),
+                                 compose("tuple", [leaf("OptRead", 17)])]))
+    out.append(compose("tuple", [compose("tuple", [leaf("Read", i + 1) for i in range(16)]),
+                                 compose("tuple", [leaf("OptRead", i + 1) for i in range(16)])]))
+    # 40 writes in 8 five-tuples over 40 distinct resources, inside a derived struct
+    out.append(compose("named", [compose("tuple", [compose("tuple", [wk(5 * j + i + 1, 20) for i in range(5)]) for j in range(8)])]))
+    # a full 26-tuple of writes followed by a 7-tuple of writes: 33 writes
+    out.append(compose("tuple", [compose("tuple", [wk(i + 1, 13) for i in range(26)]),
+                                 compose("tstruct", [compose("tuple", [wk(27 + i, 13) for i in range(7)])])]))
+    # mixed: 45 reads over resources 1..15 and 35 writes over resources 16..50, three levels deep
+    reads = [compose("tuple", [leaf(rk[(i + j) % 3], (3 * j + i) % 15 + 1) for i in range(9)]) for j in range(5)]
+    writes = [compose("tuple", [leaf("Write" if 16 + 7 * j + i <= 25 else ("WriteExpect" if i % 2 else "OptWrite"), 16 + 7 * j + i)
+                                for i in range(7)]) for j in range(5)]
+    out.append(compose("tuple", [compose("tuple", reads), compose("named", [compose("tuple", writes)])]))
+    return out
+
+
 def rand_leaf(rng, nres, kinds=ALL_KINDS):
     k = rng.choice(kinds)
     r = rng.randint(1, nres)
@@ -212,7 +247,16 @@ class Spelling:
         self.conc = []
         if twin:
             self.conc = ["P%d" % i for i in range(nres_total)]
-        for r in range(1, (0 if twin else nres_total) + 1):
+        elif nres_total > NCONC:
+            # more resources than indices: D_i and N_i are distinct types; the Default-needing
+            # resources get the D types first, the others whatever is left
+            assert len(need_default) <= NCONC and nres_total <= 2 * NCONC, "too many resources"
+            names = ["D%d" % c for c in pool]
+            dn = {r: names.pop() for r in sorted(need_default)}
+            rest = names + ["N%d" % c for c in range(NCONC)]
+            rng.shuffle(rest)
+            self.conc = [dn[r] if r in dn else rest.pop() for r in range(1, nres_total + 1)]
+        for r in range(1, (0 if (twin or nres_total > NCONC) else nres_total) + 1):
             c = pool[r - 1]
             if r in need_default or rng.random() < 0.4:
                 self.conc.append("D%d" % c)
@@ -427,11 +471,23 @@ def generate(mc_files, arity_files, seed, n_mc, n_arity, n_rot, n_deep, n_wide, 
     rng = random.Random(seed)
     cases = []
 
+    nsiblings = [0]
+
     def add(origin, tb, nres_shape, runs, extra, bare_nodes=()):
         cid = len(cases) + 1
         nres_total = nres_shape + (1 if nres_shape < NCONC and rng.random() < 0.8 else 0)
         sp = Spelling(rng, cid, tb, nres_total, bare_nodes)
         ty = sp.ty(1)
+        # dynamic-id siblings: cells (T, 1) / (T, 2) of Rust types the shape accesses statically; they are
+        # further abstract resources that the shape never mentions (the model: never touched)
+        nsib = rng.choice([0, 0, 0, 1, 1, 2]) if sp.used and nres_total <= 50 else 0
+        sibs = set()
+        while len(sibs) < nsib:
+            sibs.add((rng.choice(sp.used), rng.choice([1, 2])))
+        for r, dyn in sorted(sibs):
+            sp.conc.append("%s#%d" % (sp.conc[r - 1], dyn))
+        nres_total += len(sibs)
+        nsiblings[0] += len(sibs)
         runs2 = []
         for r in runs:
             pad = nres_total - len(r["present"])
@@ -466,6 +522,9 @@ def generate(mc_files, arity_files, seed, n_mc, n_arity, n_rot, n_deep, n_wide, 
     for n in range(1, 27):
         for which in "RWDH":
             add("gen-all", all_shape(n, which, rng.randint(0, 2)), n, [], extra_gen)
+    # always: wide nested shapes whose flattened reads / writes exceed 32 ids
+    for tb in overflow_shapes():
+        add("gen-overflow", tb, nres_of(tb), [], extra_gen)
     # always: derived structs with a bare type-parameter member (first / middle / last; leaf, tuple, struct)
     for tb, bare in bare_shapes():
         add("gen-bare", tb, nres_of(tb), [], extra_gen, bare)
@@ -541,6 +600,9 @@ def generate(mc_files, arity_files, seed, n_mc, n_arity, n_rot, n_deep, n_wide, 
              "derived_structs": sum(len(c["defs"]) for c in cases),
              "structs_without_lifetime_turned_into_tuples": sum(c["normalised"] for c in cases),
              "members_spelled_as_bare_type_parameter": sum(c["nbare"] for c in cases),
+             "dynamic_id_sibling_cells": nsiblings[0],
+             "max_flattened_reads": max([sum(1 for x in c["shape"] if x["kind"] in ("Read", "ReadExpect", "OptRead", "ReadH")) for c in cases] + [0]),
+             "max_flattened_writes": max([sum(1 for x in c["shape"] if x["kind"] in ("Write", "WriteExpect", "OptWrite", "WriteH")) for c in cases] + [0]),
              "custom_handler_leaves": sum(1 for c in cases for x in c["shape"] if x["kind"] in H_KINDS),
              "arities_present": arities,
              "arity_positions_covered": len({arity_np(c["shape"]) for c in cases if c["origin"] == "mc-arity"}),
